@@ -27,6 +27,7 @@
 #ifndef MP_SOL_H_
 #define MP_SOL_H_
 
+#include <cerrno>
 #include <cstdio>
 #include <cstring>
 #include <algorithm>
@@ -103,6 +104,7 @@ void WriteSuffixes(fmt::BufferedFile &file, const SuffixMap *suffixes) {
 template <typename Solution>
 void WriteSolFile(fmt::CStringRef filename, const Solution &sol) {
   fmt::BufferedFile file(filename, "wb");
+  try {
   internal::WriteMessage(file, sol.message());
   // Write options.
   file.print("Options\n");
@@ -123,6 +125,13 @@ void WriteSolFile(fmt::CStringRef filename, const Solution &sol) {
   suf::Kind kinds[] = {suf::VAR, suf::CON, suf::OBJ, suf::PROBLEM};
   for (std::size_t i = 0, n = sizeof(kinds) / sizeof(*kinds); i < n; ++i)
     internal::WriteSuffixes(file, sol.suffixes(kinds[i]));
+  if (std::ferror(file.get()))
+    throw fmt::SystemError(errno, "cannot write file {}", filename);
+  file.close();                   // flushes; throws if that fails
+  } catch (...) {
+    std::remove(filename.c_str());  // never leave a truncated .sol behind
+    throw;
+  }
 }
 
 }  // namepace mp
